@@ -179,7 +179,9 @@ where
 {
     fn write(&mut self, buf: &[u8]) -> std::io::Result<usize> {
         let total_len = (self.max_pdu_length + PDU_HEADER_SIZE) as usize;
-        if self.buffer.len() + buf.len() <= total_len {
+        // note: strictly less than, so that the buffer is never left completely full
+        // (a full buffer would make the next call consume nothing and report `Ok(0)`)
+        if self.buffer.len() + buf.len() < total_len {
             // accumulate into buffer, do nothing
             self.buffer.extend(buf);
             Ok(buf.len())
@@ -537,7 +539,9 @@ pub mod non_blocking {
                 WriteState::Ready => {
                     // If we're in ready state, we can prepare another PDU
                     let total_len = (self.max_pdu_length + PDU_HEADER_SIZE) as usize;
-                    if self.buffer.len() + buf.len() <= total_len {
+                    // note: strictly less than, so that the buffer is never left completely full
+                    // (a full buffer would make the next call consume nothing and report `Ok(0)`)
+                    if self.buffer.len() + buf.len() < total_len {
                         // Still have space in `self.buffer`, accumulate into buffer
                         self.buffer.extend(buf);
                         Poll::Ready(Ok(buf.len()))
